@@ -1069,9 +1069,11 @@ class Font(BaseObject):
     def _set_guidelines(self, value):
         self.clearGuidelines()
         self.holdNotifications(note="Requested by Font._set_guidelines.")
-        for guideline in value:
-            self.appendGuideline(guideline)
-        self.releaseHeldNotifications()
+        try:
+            for guideline in value:
+                self.appendGuideline(guideline)
+        finally:
+            self.releaseHeldNotifications()
 
     guidelines = property(_get_guidelines, _set_guidelines, doc="An ordered list of :class:`Guideline` objects stored in the font. Setting this will post a *Font.Changed* notification along with any notifications posted by the :py:meth:`Font.appendGuideline` and :py:meth:`Font.clearGuidelines` methods.")
 
